@@ -1066,7 +1066,7 @@ def main():
     seed = int(sys.argv[2]) if len(sys.argv) > 2 else 0
     t0 = time.time()
     from concurrent.futures import ThreadPoolExecutor
-    scratch = tempfile.mkdtemp(prefix='pytough-', dir='/var/tmp')
+    scratch = tempfile.mkdtemp(prefix='pytough-', dir=os.environ.get('PYTOUGH_SCRATCH', '/var/tmp'))
     failures, nfail = OrderedDict(), 0
     evals, distinct, samples, cells, changed = Counter(), set(), [], 0, 0
     notes = []
